@@ -54,7 +54,7 @@ func (c12) Runs(t Tier) int {
 }
 func (c12) RecordWidths() map[string]int { return nil }
 func (c12) RequiredProbes() []string {
-	return []string{"missing-interior-file-block", "missing-last-leaf", "missing-first-leaf", "missing-last-link-shard", "missing-nested-shard", "lookup-blocked", "lookup-not-blocked-under-fault", "kth-load-transient", "subset-fault", "hamt-depth>=3", "dedup-file-block-faulted", "missing-empty-block"}
+	return []string{"missing-interior-file-block", "missing-last-leaf", "missing-first-leaf", "missing-last-link-shard", "missing-nested-shard", "lookup-blocked", "lookup-not-blocked-under-fault", "kth-load-transient", "subset-fault", "hamt-depth>=3", "dedup-file-block-faulted", "missing-empty-block", "repeated-lookups-same-node"}
 }
 
 type c12Scenario struct {
@@ -679,6 +679,81 @@ func (c12) runDir(ts *tape.Set, tier Tier) *Result {
 			}
 			if res.Violation != nil {
 				break
+			}
+			// ---- the same lookups again, twice each, on ONE node: whatever the
+			// node remembers from an earlier call must not turn a load error
+			// into not-found (or the reverse) later
+			{
+				n, _, err := fresh()
+				if err != nil {
+					fail("c12/lookup/open-failed", "reify root: %v", err)
+					break
+				}
+				for round := 0; round < 2 && res.Violation == nil; round++ {
+					for _, name := range names {
+						want := model.LookupWith(name, unavail)
+						var got datamodel.Node
+						var lerr error
+						panicked, site, pmsg := guard(func() { got, lerr = lookup(n, name) })
+						res.Execs++
+						if panicked {
+							fail("c12/lookup/panic@"+site, "repeated lookup %q panicked: %s", name, pmsg)
+							break
+						}
+						switch {
+						case want.Blocked:
+							if lerr == nil || isNotFoundResult(lerr) || !isLoadError(lerr) {
+								fail("c12/lookup/repeated-lookup-loses-load-error", "lookup %q (call %d on the same node) crosses unavailable shard %s but returned (%v, %v)", name, round+1, shortCid(want.BlockedAt), got, lerr)
+							}
+						case want.Found:
+							if lerr != nil {
+								fail("c12/lookup/repeated-lookup-differs", "lookup %q (call %d on the same node) does not cross an unavailable shard but failed: %v", name, round+1, lerr)
+							} else if l, err := got.AsLink(); err != nil || !l.(cidlink.Link).Cid.Equals(want.Link) {
+								fail("c12/lookup/repeated-lookup-differs", "lookup %q (call %d on the same node) returned %v, want %s", name, round+1, l, want.Link)
+							}
+						default:
+							if !isNotFoundResult(lerr) {
+								fail("c12/lookup/repeated-lookup-differs", "lookup of non-member %q (call %d on the same node) returned (%v, %v) instead of not-found", name, round+1, got, lerr)
+							}
+						}
+						if res.Violation != nil {
+							break
+						}
+					}
+				}
+				res.Events += len(st.Log)
+				res.probe("repeated-lookups-same-node")
+				if res.Violation != nil {
+					break
+				}
+				// the store recovers: the same node must now give the true answers
+				st.ReadPolicy = nil
+				for _, name := range names {
+					want := model.Lookup(name)
+					var got datamodel.Node
+					var lerr error
+					panicked, site, pmsg := guard(func() { got, lerr = lookup(n, name) })
+					res.Execs++
+					if panicked {
+						fail("c12/lookup/panic@"+site, "lookup %q after recovery panicked: %s", name, pmsg)
+						break
+					}
+					if want.Found {
+						if lerr != nil {
+							fail("c12/lookup/stale-result-after-recovery", "the shard is available again but lookup %q on the same node still fails: %v", name, lerr)
+						} else if l, err := got.AsLink(); err != nil || !l.(cidlink.Link).Cid.Equals(want.Link) {
+							fail("c12/lookup/stale-result-after-recovery", "lookup %q after recovery returned %v, want %s", name, l, want.Link)
+						}
+					} else if !isNotFoundResult(lerr) {
+						fail("c12/lookup/stale-result-after-recovery", "the shard is available again but lookup of non-member %q returned (%v, %v)", name, got, lerr)
+					}
+					if res.Violation != nil {
+						break
+					}
+				}
+				if res.Violation != nil {
+					break
+				}
 			}
 		}
 
